@@ -371,6 +371,14 @@ pub fn c20(rep: &mut Report, cfg: &Cfg) {
     lock.finish();
     drain_strays(rep, check, &mut lock, &judge);
     super::progwalk::run(rep, cfg, "C20", &judge, &[Group::Mov, Group::Arith, Group::Logic, Group::Bit, Group::Stc], 300, 60_000);
+    // ---- the charge of the MES system call (TRAPA #0: its cycle mix is not in the manual, so the
+    // reference has no number for it) must still depend on form and areas only, not on history
+    let mut hrng = cfg.rng("C20-syscall-history");
+    for _ in 0..cfg.share(cfg.n(400, 60_000)) {
+        rep.evaluations += 1;
+        syscall_cost_history(rep, hrng.next(), false);
+    }
+    rep.notes.push("C20 system-call histories: the same TRAPA #0 call (same registers, memory, areas, bus settings) executed before and after a random history of interrupt entries, traps, returns and stack switches on the same machine must be charged the same number of states.".into());
     rep.notes.push("C20: every implemented form x code in RAM/DRAM x operand/stack/vector in RAM, DRAM, vector area x 8 bus-controller settings (4 hand-made with pairwise distinct costs + 4 seeded random); compares the state count returned by the step with cycle-table x cost-function. Cells: (form, code area, data area, stack area, setting), (form, total).".into());
 }
 
@@ -493,4 +501,98 @@ pub fn chain_session(rep: &mut Report, seed: u64, verbose: bool) -> bool {
     }
     rep.sample(|| format!("address chain seed={} mode={} size={} ER{} base={:08x} disp={:x}: {} steps", seed, mode, sz, n, base, disp, prog.len()));
     bad
+}
+
+
+/// the same MES call before and after an unrelated history: equal charge (see c20)
+pub fn syscall_cost_history(rep: &mut Report, seed: u64, verbose: bool) -> bool {
+    use crate::mon::{Action, RealOutcome, Sess};
+    use crate::refmodel::exec::Regs;
+    let mut rng = Rng::new(seed);
+    let mut sess = Sess::new(Some((seed & 1) as u32));
+    let replay = format!("check=C20 kind=syscallhistory seed={}", seed);
+    let area = |rng: &mut Rng, k: u64| -> u32 {
+        // stacks / code / blocks in on-chip RAM (k even) or DRAM (k odd), apart from each other
+        if k % 2 == 0 { 0xffd000 + 0x100 * rng.below(16) as u32 } else { 0x480000 + 0x1000 * rng.below(64) as u32 }
+    };
+    if rng.chance(1, 2) {
+        let b = crate::refmodel::cost::BusRegs { abwcr: rng.u8(), astcr: rng.u8(), wcrh: rng.u8(), wcrl: rng.u8(), drcra: rng.u8() };
+        let mut c = Case::words(0, &[]);
+        c.bus(&b);
+        for (a, v) in &c.patches {
+            sess.poke(*a, *v);
+        }
+    }
+    for v in 1..64u32 {
+        sess.poke32(4 * v, 0xffc800 + 8 * v);
+    }
+    let (kc, ks, ka) = (rng.below(2), rng.below(2), rng.below(2));
+    let pc = if kc == 0 { 0xffc000 + 2 * rng.below(0x100) as u32 } else { 0x440000 + 2 * rng.below(0x1000) as u32 };
+    let sp = area(&mut rng, ks) + 0x80;
+    let argp = area(&mut rng, ka) + 0xc0;
+    let id = if rng.chance(1, 2) { 104 } else { 113 };
+    // write of zero bytes / set_handler of an ignored vector: no effect on memory or the console
+    sess.poke32(argp, if id == 104 { 1 } else { 0 });
+    sess.poke32(argp + 4, 0xffc400);
+    sess.poke32(argp + 8, 0);
+    sess.load(pc, &[0x57, 0x00]);
+    let mut er = gen::regs(&mut rng);
+    er[0] = id;
+    er[1] = argp;
+    er[7] = sp;
+    let k = Regs { er, ccr: rng.u8(), pc };
+    sess.set_regs(&k);
+    let RealOutcome::Ok(c1) = sess.act(Action::Step).real else { return false };
+    // ---- unrelated history
+    let n = 1 + rng.below(6);
+    let mut hist = vec![];
+    for _ in 0..n {
+        let mut r = sess.regs();
+        let which = rng.below(2);
+        r.er[7] = area(&mut rng, which) + 0x40 + 4 * rng.below(8) as u32;
+        r.pc = 0xffc400 + 2 * rng.below(0x80) as u32;
+        match rng.below(4) {
+            0 | 1 => {
+                r.ccr &= 0x7f;
+                sess.set_regs(&r);
+                let v = 1 + rng.below(63) as u8;
+                let _ = sess.act(Action::Interrupt(v));
+                hist.push(format!("interrupt {} with SP={:06x}", v, r.er[7]));
+            }
+            2 => {
+                sess.set_regs(&r);
+                let t = 1 + rng.below(3) as u8;
+                sess.load(r.pc, &[0x57, t << 4]);
+                let _ = sess.act(Action::Step);
+                hist.push(format!("TRAPA #{} with SP={:06x}", t, r.er[7]));
+            }
+            _ => {
+                sess.poke32(r.er[7], 0x00ffc600);
+                sess.set_regs(&r);
+                sess.load(r.pc, &[0x56, 0x70]);
+                let _ = sess.act(Action::Step);
+                hist.push(format!("RTE with SP={:06x}", r.er[7]));
+            }
+        }
+    }
+    // ---- the same call again
+    sess.load(pc, &[0x57, 0x00]);
+    sess.poke32(argp, if id == 104 { 1 } else { 0 });
+    sess.poke32(argp + 4, 0xffc400);
+    sess.poke32(argp + 8, 0);
+    sess.set_regs(&k);
+    let RealOutcome::Ok(c2) = sess.act(Action::Step).real else { return false };
+    rep.cell("syscall-history", &[id as u64, kc, ks, ka, n]);
+    if verbose {
+        println!("  TRAPA #0 (ER0={}) pc={:06x} sp={:06x} args={:06x}: {} states, after [{}]: {} states", id, pc, sp, argp, c1, hist.join("; "), c2);
+    }
+    if c1 != c2 {
+        rep.finding(
+            "TRAPA #0|cost-depends-on-history",
+            || format!("TRAPA #0 (ER0={}) at {:06x} with SP={:06x}, arguments at {:06x}: {} states; after [{}] the identical call is charged {} states", id, pc, sp, argp, c1, hist.join("; "), c2),
+            || replay.clone(),
+        );
+        return true;
+    }
+    false
 }
